@@ -162,6 +162,10 @@ pub fn c08(ctx: &Ctx, rep: &mut Report) {
         }
     }
     // model: the same histories as `with` requests, one slot per history
+    if ctx.driver == "none" {
+        rep.notes.push("model driver unavailable: correspondence skipped, oracle only".into());
+        return;
+    }
     let groups: Vec<Vec<String>> = hs.iter().map(|h| h.calls.iter().map(|c| op_line_with(h.id, c)).collect()).collect();
     let per = (groups.len() + ctx.threads - 1) / ctx.threads.max(1);
     let mut handles = vec![];
